@@ -465,7 +465,8 @@ pub fn load(text: &str, code_base: u64) -> Result<Prog, LoadErr> {
                 fixups.push((ins.len(), ops[2].clone(), line));
                 Ins::Tbz(mn == "TBZ", gpr(0)?, bit, usize::MAX)
             }
-            m if !m.chars().all(|c| c.is_ascii_alphanumeric() || c == '.' || c == '_') => {
+            // (mnemonics of this assembler syntax are spelled with these characters only)
+            m if !m.chars().all(|c| c.is_ascii_uppercase() || c.is_ascii_digit() || c == '.') => {
                 return Err(LoadErr::Text(Viol::new(Class::Text, format!("line {line}: `{t}` is neither an instruction nor a label nor a directive"))));
             }
             _ => return Err(bad("unknown mnemonic")),
